@@ -58,6 +58,11 @@ func NewConnection(connection net.Conn, context Context) *Connection {
 // EncryptedWrite encrypts and writes bytes to the connection.
 // The method returns the number of bytes of b which were written and an error when writing failed.
 func (con *Connection) EncryptedWrite(b []byte) (int, error) {
+	return con.encryptedWrite(b, nil)
+}
+
+// encryptedWrite encrypts with encrypter, or with the current encrypter of the session when encrypter is nil.
+func (con *Connection) encryptedWrite(b []byte, encrypter crypto.Encrypter) (int, error) {
 	verifWriteEnter(con)
 
 	// Encrypting increments the frame counter. The frames have to reach the
@@ -67,7 +72,9 @@ func (con *Connection) EncryptedWrite(b []byte) (int, error) {
 
 	var buffer bytes.Buffer
 	buffer.Write(b)
-	encrypter := con.getEncrypter()
+	if encrypter == nil {
+		encrypter = con.getEncrypter()
+	}
 	if encrypter == nil {
 		// The session was removed because the connection was closed in the meantime
 		return 0, io.ErrClosedPipe
@@ -176,8 +183,9 @@ func (con *Connection) WriteNotification(b []byte) (int, error) {
 // Write writes bytes to the connection.
 // The written bytes are encrypted when possible.
 func (con *Connection) Write(b []byte) (int, error) {
-	if con.getEncrypter() != nil {
-		return con.EncryptedWrite(b)
+	// Whether and how the bytes are encrypted is decided once
+	if encrypter := con.getEncrypter(); encrypter != nil {
+		return con.encryptedWrite(b, encrypter)
 	}
 
 	return con.connection.Write(b)
